@@ -190,8 +190,12 @@ func (m *c20Model) apply(o c20Op) int {
 			m.vars["b"] = "2"
 		case "1/0", "n=1/0", "n=08":
 			return 1
-		case "0&&(n=7)":
-			return -1 // known finding of C11 (eager evaluation); the store effect is left open here
+		case "0&&(n=7)", "0&&1/0", "1||(n=08)":
+			// operands C skips: no store, no fault
+		case "n=0?08:5":
+			m.vars[o.Name] = "5"
+		case "(1||09)+(n=7)":
+			m.vars[o.Name] = "7"
 		}
 		return 0
 	}
@@ -308,7 +312,7 @@ func c20Ops() []c20Op {
 		ops = append(ops, c20Op{Kind: "expand", Name: t[1], Val: "%", Text: t[0]})
 	}
 	for _, n := range []string{"a", "A"} {
-		for _, f := range []string{"n=1", "n+=1", "n++", "++n", "--n", "n", "m=n=2", "1/0", "n=1/0", "n=08", "0&&(n=7)"} {
+		for _, f := range []string{"n=1", "n+=1", "n++", "++n", "--n", "n", "m=n=2", "1/0", "n=1/0", "n=08", "0&&(n=7)", "0&&1/0", "1||(n=08)", "n=0?08:5", "(1||09)+(n=7)"} {
 			text := strings.ReplaceAll(f, "n", n)
 			text = strings.ReplaceAll(text, "m=", "b=")
 			ops = append(ops, c20Op{Kind: "eval", Name: n, Val: f, Text: text})
@@ -441,7 +445,7 @@ func init() {
 		id:    "C20",
 		level: "model_checking",
 		rule: "explicit-state BFS to depth 4 (quick) / 6 (thorough) from 8 initial environments (Args ∈ {sh; sh p q; 11 positionals; one empty positional} × Opts ∈ {0, nounset}); " +
-			"alphabet ≈ 200 operations: Set/Unset on ordinary, special and positional names, Expand of ${n op w} for 9 operator forms and 10 parameter kinds, pattern removal on $@/$*/$1, Eval of 11 assigning/faulting forms; " +
+			"alphabet ≈ 200 operations: Set/Unset on ordinary, special and positional names, Expand of ${n op w} for 9 operator forms and 10 parameter kinds, pattern removal on $@/$*/$1, Eval of 15 assigning/faulting/short-circuit forms; " +
 			"every transition is taken from every distinct reachable state; distinct_nontrivial = distinct reachable store states other than the initial one",
 		assume: []string{"map model in c20.go; process environment cleared so that NewExecEnv starts from {IFS}",
 			"canonical state = sorted (name,value) of Walk + Args + Opts: Export/ReadOnly flags are not observed by any operation of the alphabet, so merged states have equal futures",
